@@ -52,24 +52,6 @@ example : singleSpaced "the quick brown fox jumps over the lazy dog again".toLis
 /-- the hypothesis is needed: a double blank at a break is lost -/
 example : joinSp (splitChar '\n' (wrapString "aaaa  bbbb".toList 6)) ≠ "aaaa  bbbb".toList := by decide
 
-/-! ### cached or structural location -/
-
-/-- the qualifier lines of a feature: `/key="value"` at column 22, one line each, keys ascending -/
-def qualifierLines (f : Feature) (o : List Nat) : Str :=
-  ((sortStrings (rangeKeys o f.attributes)).map fun q =>
-    spaces 21 ++ ['/'] ++ q ++ "=\"".toList ++ lookupD f.attributes q ++ "\"\n".toList).flatten
-
-/-- the location column of a feature line is the cached text when there is one, and
-`BuildLocationString` of the structure otherwise -/
-theorem build_cached_or_structural (f : Feature) (o : List Nat) :
-    (f.gbkLocationString ≠ [] →
-      buildFeatureString f o = spaces 5 ++ f.type ++ spaces (16 - f.type.length) ++ f.gbkLocationString ++ ['\n']
-        ++ qualifierLines f o)
-    ∧ (f.gbkLocationString = [] →
-      buildFeatureString f o = spaces 5 ++ f.type ++ spaces (16 - f.type.length)
-        ++ Location.buildLoc f.sequenceLocation ++ ['\n'] ++ qualifierLines f o) := by
-  constructor <;> intro h <;> simp [buildFeatureString, qualifierLines, h]
-
 /-! ### the written text follows the flat-file layout -/
 
 /-- The layout domain (every hypothesis decidable; each conjunct is a datum that the flat-file
@@ -93,7 +75,11 @@ independent strict column reader (keyword = columns 1-12, continuation ⇔ 12 le
 key in columns 6-20 / location from column 22, qualifier `/k="v"` at column 22, ORIGIN counter in
 columns 1-9 then groups of 10, terminator `//`) recovers exactly `abs x` from the text `Build`
 writes — with metadata wrapped over any number of lines, any number of references, extra blocks,
-features and qualifiers, cached or structural locations, and a sequence of any length below 10^9. -/
+features and qualifiers, and a sequence of any length below 10^9.  Every reference is recovered with its
+number: its own `Index` when set (any blank-free word — no positional numbering is assumed here), else its
+position (`refNum`).  The clause "with and without cached location text" is part of this statement: the location
+column the reader must find is the cached text when there is one and `BuildLocationString` of the structure
+otherwise (`absFeat`). -/
 theorem build_strict_layout_partial (x : Sequence) (o : MapOrders) (h : WFLayout x) :
     strictRead (build x o) = some (abs x) := by
   rw [build_deterministic x o MapOrders.id]
